@@ -1,6 +1,7 @@
 """Property -> rules table."""
 import r_cloud
 import r_panic
+import r_transform
 
 PROPS = {}
 
@@ -24,5 +25,23 @@ PROPS["C18"] = {
     "assumptions": ["the frozen list of panicking std/chrono APIs in rules/r_panic.py is complete for the APIs the cone uses", "storage contract for get_working_set slot 0"],
 }
 
+PROPS["C01"] = {
+    "rules": [r_transform.rule_TP1],
+    "explanation": "TR/TP1: the transform's complete decision table is extracted statically from MIR and checked exhaustively over the finite abstract input space against the documented application semantics (diamond property).",
+    "not_decided": "convergence over whole histories, N replicas, batching arithmetic",
+    "assumptions": [],
+}
+PROPS["C03"] = {
+    "rules": [r_transform.rule_TP1, r_transform.rule_WIN],
+    "explanation": "TR/WIN: the extracted transform table yields the documented conflict winners (final-state oracle), survivors are field-for-field their operand, and the winner does not depend on argument order for strictly ordered timestamps; exhaustive over the abstract space.",
+    "not_decided": "causally ordered overrides and three-replica orderings (consequences of sequential application over a history)",
+    "assumptions": [],
+}
+PROPS["C04"] = {
+    "rules": [r_transform.rule_CANCEL],
+    "explanation": "TR/CANCEL: identical operations cancel to (None, None).",
+    "not_decided": "per-crash-point behaviour",
+    "assumptions": [],
+}
 # reasons shown in MANIFEST.not_applicable for properties not (yet) claimed
 NOT_YET = {}
